@@ -284,7 +284,7 @@ def phonon_volume_order(chk, tier, rng):
     import cij.io.traditional.models as md
     import qha.grid_interpolation as gi
     chk.encode(cc.Calculator._load, qa.QHACalculator.read_input, gi.FinerGrid.refine_grid, gi.VolumeExpander.interpolate_volumes)
-    nv, nq, np_, nt = 4, 1, 3, 2
+    nv, nq, np_, nt = 4, 2, 3, 2
     vol_values = [420.0, 395.0, 371.0, 350.0]
     perms = [tuple(range(nv)), tuple(reversed(range(nv))), (1, 2, 3, 0), (0, 2, 1, 3)]
     if tier != "quick":
@@ -327,11 +327,13 @@ def phonon_volume_order(chk, tier, rng):
 
     t0 = time.time()
     handover = {}
+    stored = {}
     raised = {}
     for perm in perms:
         try:
             rec = X.run_single_path(lambda: load(perm), name="C13:_load")
             handover[perm] = (signature(rec["adapter"]), signature(rec["stored"]))
+            stored[perm] = (rec["adapter"], rec["stored"])
         except SymError as e:
             chk.inconclusive("phonon volume-block order: hand-over %s" % (perm,), str(e))
             return
@@ -364,7 +366,8 @@ def phonon_volume_order(chk, tier, rng):
         qa.QHACalculator.read_input(calc, qin)
         if calc._volumes.dtype == object:
             calc._volumes = calc._volumes.astype(float)
-        calc.__dict__["_vib_ry"] = numpy.array([[F[t, r] for r in perm] for t in range(nt)], dtype=object)
+        block_of = [vol_values.index(float(v)) for v in calc._volumes]         # free energies belong to blocks, whatever read_input did to the order
+        calc.__dict__["_vib_ry"] = numpy.array([[F[t, r] for r in block_of] for t in range(nt)], dtype=object)
         with patched((gi, {"apply_finite_strain_fitting": fit_exact})):
             calc.refine_grid()
         return numpy.asarray(calc._finer_volumes_bohr3, dtype=float), numpy.asarray(calc._f_tv_ry, dtype=object)
@@ -379,7 +382,7 @@ def phonon_volume_order(chk, tier, rng):
     for perm in differing:
         order_seen = [vol_values.index(x[0]) for x in handover[perm][0]]
         try:
-            v, f = X.run_single_path(lambda: refine(blocks(perm), tuple(order_seen)), name="C13:refine")
+            v, f = X.run_single_path(lambda: refine(stored[perm][0], tuple(order_seen)), name="C13:refine")
         except Exception:
             continue     # rejected with an error: allowed
         if numpy.abs(v - ref_v).max() > 1e-9 * numpy.abs(ref_v).max():
@@ -404,9 +407,68 @@ def phonon_volume_order(chk, tier, rng):
                    detail=dict(order=list(bad[0]), what=bad[1]) if bad else None)
     if bad:
         replay_volume_order(chk, bad[0], bad[1])
+        return
+    # V3: the stored data (what interpolate_modes receives) still carry the file order -- is the mode interpolation invariant under it?
+    import cij.core.mode_gamma as mg
+    import scipy.interpolate as real_si
+    from harness.c11 import make_scipy_stub, Interp
+    chk.encode(mg.interpolate_modes)
+    v_arr = symvars("vg", (2,), positive=True)
+    bad3 = None
+    t3 = time.time()
+    for method, order in (("lsq_poly", 2), ("krogh", 2), ("lagrange", 3)):
+        outs = {}
+        for perm in [perms[0]] + [pm for pm in differing if signature(stored[pm][1]) != signature(stored[perms[0]][1])]:
+            created = []
+            proxy = NumpyProxy()
+
+            def polyder(p_, m=1):
+                if isinstance(p_, Interp):
+                    return Interp(p_.kind, p_.x, p_.y, p_.kwargs, nu=p_.nu + m)
+                return numpy.polyder(p_, m)
+            proxy.extra["polyder"] = polyder
+            sstub = PC.Obj()
+            sstub.interpolate = make_scipy_stub(real_si, created)
+            try:
+                def run_modes():
+                    with patched((mg, {"numpy": proxy, "scipy": sstub})):
+                        return mg.interpolate_modes(stored[perm][1], v_arr, method=method, order=order)
+                ex = X.Explorer(max_paths=4, name="C13:modes")
+                ex.prefer = lambda cond: (True if cond[1] == "!=" else (False if cond[1] == "==" else None)) if cond[0] == "rel" else None
+                pths = ex.run(run_modes)
+                if pths[0].exception is not None:
+                    raise pths[0].exception
+                outs[perm] = pths[0].result
+            except Exception as e_:
+                if os.environ.get("C13_DEBUG"):
+                    import traceback; traceback.print_exc()
+                outs[perm] = None          # rejected with an error: allowed
+        ref = outs.get(perms[0])
+        if os.environ.get("C13_DEBUG"):
+            print("DBG3", method, {k: (None if v is None else str(numpy.asarray(v[1], dtype=object).ravel()[-1])[:150]) for k, v in outs.items()})
+        if ref is None:
+            continue
+        for perm, o in outs.items():
+            if o is None or perm == perms[0]:
+                continue
+            for a, b in zip(ref, o):
+                fa, fb = numpy.asarray(a, dtype=object).ravel(), numpy.asarray(b, dtype=object).ravel()
+                if fa.shape != fb.shape or not all(Sym.of(x).same(y) or Z.prove_equal(Sym.of(x), Sym.of(y), name="C13:modes:" + method)[0] == "unsat" for x, y in zip(fa, fb)):
+                    bad3 = (perm, method, order)
+                    break
+            if bad3:
+                break
+        if bad3:
+            break
+    chk.obligation("phonon volume blocks: the file order reaches interpolate_modes; interpolated (omega, gamma, V dgamma/dV) identical for every "
+                   "order (lsq_poly exact least squares; krogh / lagrange as uninterpreted interpolants of their node sets)",
+                   "unsat" if not bad3 else "sat", seconds=round(time.time() - t3, 2), kind="identity(uninterpreted interpolants)",
+                   detail=dict(order=list(bad3[0]), method=bad3[1]) if bad3 else None)
+    if bad3:
+        replay_volume_order(chk, bad3[0], "interpolate_modes(%s) depends on the order of the volume blocks" % bad3[1], method=bad3[1], order=bad3[2])
 
 
-def replay_volume_order(chk, perm, what):
+def replay_volume_order(chk, perm, what, method="lsq_poly", order=3):
     """Real Calculator on the shipped akimotoite example with the volume blocks of input01 re-ordered (lsq_poly, the packaged default)."""
     import shutil
     import tempfile
@@ -418,19 +480,19 @@ def replay_volume_order(chk, perm, what):
         chk.harness_error("C13 volume order: example files missing, '%s' not replayed" % what)
         return
 
-    def run(order):
+    def run(arrangement):
         d = tempfile.mkdtemp(prefix="c13vo_")
         try:
             data = qi.read_energy(os.path.join(src, "input01"))
             vols = list(data.volumes)
-            if order == "reversed":
+            if arrangement == "reversed":
                 vols = vols[::-1]
-            elif order == "rotated":
+            elif arrangement == "rotated":
                 vols = vols[1:] + vols[:1]
             qi.write_energy(os.path.join(d, "input01"), data._replace(volumes=vols))
             shutil.copy(os.path.join(src, "input02"), os.path.join(d, "input02"))
             cfg = yaml.safe_load(open(os.path.join(src, "settings.yaml")))
-            cfg["elast"]["settings"]["mode_gamma"] = {"interpolator": "lsq_poly", "order": 3}
+            cfg["elast"]["settings"]["mode_gamma"] = {"interpolator": method, "order": order}
             cfg["qha"]["settings"]["NT"] = 6
             with open(os.path.join(d, "settings.yaml"), "w") as fp:
                 yaml.safe_dump(cfg, fp)
@@ -446,18 +508,18 @@ def replay_volume_order(chk, perm, what):
     try:
         with numpy.errstate(all="ignore"):
             v0, base = run("original")
-            for order in ("reversed", "rotated"):
+            for arrangement in ("reversed", "rotated"):
                 try:
-                    v1, alt = run(order)
+                    v1, alt = run(arrangement)
                 except Exception:
                     continue      # rejected with an error: allowed by the property
                 for k in base:
                     a, b = base[k], alt[k]
                     if a.shape != b.shape or v0.shape != v1.shape or numpy.nanmax(numpy.abs(a - b)) > 1e-6 * numpy.nanmax(numpy.abs(a)):
                         rel = float(numpy.nanmax(numpy.abs(a - b)) / numpy.nanmax(numpy.abs(a))) if a.shape == b.shape else None
-                        chk.violation("phonon:volume-order", "examples/akimotoite with the volume blocks of input01 listed in %s order (lsq_poly): no error, "
-                                      "but %s differs by %s relative from the original order" % (order, k, "%.3g" % rel if rel is not None else "shape"),
-                                      dict(order=order, quantity=k, relative=rel))
+                        chk.violation("phonon:volume-order", ("examples/akimotoite with the volume blocks of input01 listed in %s order (interpolator " + method + "): no error, "
+                                       "but %s differs by %s relative from the original order") % (arrangement, k, "%.3g" % rel if rel is not None else "shape"),
+                                      dict(order=arrangement, quantity=k, relative=rel, interpolator=method))
                         return
     finally:
         logging.disable(logging.NOTSET)
